@@ -1,4 +1,4 @@
 SPECIFICATION MCSpec
-CONSTANTS Tier = "quick" Reps = 2
+CONSTANTS Tier = "quick" Reps = 1
 INVARIANT RefVerifyOK RefSetKeyOK Emit
 CHECK_DEADLOCK FALSE
